@@ -199,3 +199,59 @@ def must_pass_before(fn, target, pred):
             continue
         work.extend(cfg.succs(b))
     return True
+
+
+def must_pass_each_iteration(fn, loop, pred):
+    """True iff every path through one iteration of `loop` (from the first element of its body to the point where the body is left:
+    increment, next test of the condition, break or return) executes an element satisfying pred.  None if the body is not in the CFG."""
+    from .facts import walk
+    cfg = fn.cfg
+    body = loop.get("body")
+    if body is None:
+        return None
+    ids = {q.get("id") for q in [body] + list(walk(body)) if q.get("id") is not None}
+    inside = set()
+    first = None
+    decls = {q.get("did") for q in walk(body) if q.get("k") == "VarDecl"}
+    for b, blk in cfg.blocks.items():
+        for e in blk["e"]:
+            if isinstance(e, int) and e in ids:
+                inside.add(b)
+            elif isinstance(e, dict) and e.get("dtor") in decls:
+                inside.add(b)       # implicit destructor of a variable of the body: still the same iteration
+        if blk.get("cond") in ids:
+            inside.add(b)
+    # entry block of the body: the inside block that has a predecessor outside (the loop condition)
+    preds = {}
+    for b in cfg.blocks:
+        for s_ in cfg.succs(b):
+            preds.setdefault(s_, set()).add(b)
+    starts = [b for b in inside if any(p_ not in inside for p_ in preds.get(b, ()))]
+    if not starts:
+        return None
+    seen = set()
+    work = list(starts)
+    while work:
+        b = work.pop()
+        if b in seen:
+            continue
+        seen.add(b)
+        hit = False
+        for e in cfg.blocks[b]["e"]:
+            if isinstance(e, int):
+                n = fn.nodes.get(e)
+                if n is not None and pred(n):
+                    hit = True
+                    break
+        if hit:
+            continue
+        for s_ in cfg.succs(b):
+            if s_ not in inside:
+                # leaving the body: a throw is not an iteration that has to be recorded
+                blk = cfg.blocks[b]
+                last = [fn.nodes.get(e) for e in blk["e"] if isinstance(e, int)]
+                if any(x is not None and x.get("k") == "CXXThrowExpr" for x in last):
+                    continue
+                return False
+            work.append(s_)
+    return True
